@@ -146,8 +146,11 @@ def user_access_res(a, d):
                ipmi_messaging=bool(d[3] & 0x10), link_auth=bool(d[3] & 0x20), callback_only=bool(d[3] & 0x40))
 
 
+SENSOR_NUMS = [3, 0x80, 0xff]
+
+
 def thr_args(rng):
-    a = {'sensor_number': u8(rng), 'lun': rng.randrange(4)}
+    a = {'sensor_number': rng.choice(SENSOR_NUMS), 'lun': rng.randrange(4)}
     for k in ('unr', 'ucr', 'unc', 'lnc', 'lcr', 'lnr'):
         if rng.random() < 0.5:
             a[k] = u8(rng)
@@ -324,10 +327,10 @@ SPEC = {
     'get_user_access': dict(kind='read', args=lambda r: {'userid': r.choice([0, 1, 2, 10, 62, 63]), 'channel': chan(r)},
                             req=lambda a: (6, 0x44, 0, bytes([a['channel'], a['userid']])), res=user_access_res),
     # --- sensors and events
-    'get_sensor_reading': dict(kind='read', args=lambda r: {'sensor_number': u8(r), 'lun': r.randrange(4)},
+    'get_sensor_reading': dict(kind='read', args=lambda r: {'sensor_number': r.choice(SENSOR_NUMS), 'lun': r.randrange(4)},
                                req=lambda a: (4, 0x2d, a['lun'], bytes([a['sensor_number']])), res=reading_res),
     'set_sensor_thresholds': dict(kind='write', args=thr_args, req=thr_req, res=lambda a, d: None),
-    'get_sensor_thresholds': dict(kind='read', args=lambda r: {'sensor_number': u8(r), 'lun': r.randrange(4)},
+    'get_sensor_thresholds': dict(kind='read', args=lambda r: {'sensor_number': r.choice(SENSOR_NUMS), 'lun': r.randrange(4)},
                                   req=lambda a: (4, 0x27, a['lun'], bytes([a['sensor_number']])), res=thr_res),
     'rearm_sensor_events': dict(kind='write', args=lambda r: {'sensor_number': u8(r)},
                                 req=lambda a: (4, 0x2a, 0, bytes([a['sensor_number']])), res=lambda a, d: None,
